@@ -1,3 +1,3 @@
-(* _client.py :: _async_get_key :: ('callarg', 'GetKey', 0, 0) :  target_sd *)
+(* _client.py :: _async_get_key :: shape kernel :  GetKey(... 0: target_sd  [= target_sd] ...) *)
 Definition k_onl_agetkey_arg0 (target_sd : list Z) : list Z :=
   target_sd.
